@@ -12,6 +12,23 @@ CLAIMED = {
          "the returned tree; tied to the code by an exhaustive small-scope "
          "and random differential run with exception types compared.",
          "5 C15"),
+
+ "C07": ("Lean 4 proof by mutual structural induction (decode (encode v ++ rest) = (v, rest)) + "
+         "type-directed differential run of model, code and format encoder",
+         "C07_roundtrip is proved for every type tree and every value of the type's value set "
+         "(hasType, evaluated by the driver on every generated case), with exact consumption "
+         "(the rest is returned untouched) and UUID/Offset resolution lemmas; the model's "
+         "encode/decode are compared with serialization.py byte for byte and value for value "
+         "on boundary tables, all small type trees and random deep types.",
+         "5 C07"),
+ "C08": ("Lean 4 characterisation lemmas of the documented wire format + table theorem over "
+         "the regenerated codec table + byte-for-byte differential run",
+         "The format definition is the Lean encoder (transcribed from AuxData.hpp); one lemma "
+         "per clause of the property; the codec table regenerated from the source must equal "
+         "the expected one (rfl) and agree with the model's heads (decide); every generated "
+         "case is compared byte for byte, and bytes in a foreign element order are decoded by "
+         "the implementation.",
+         "5 C08"),
 }
 
 _PENDING = "check not built yet in this session (work in progress; see DESIGN.md section 8)"
